@@ -1,5 +1,5 @@
 #!/venv/bin/python
-"""tools/mutation_sweep.py <repo-relative file> <property ids...> [--func NAME] [--limit N] [--jobs N]
+"""tools/mutation_sweep.py <repo-relative file> <property ids...> [--func NAME] [--limit N] [--jobs N] [--ops 2]
 
 Generated (not hand-written) one-site mutations of a repository file, applied in memory (Repo overrides), each run through the
 quick rules of the given properties.  Prints the mutants that NO rule reports (exit 0 everywhere) - each is either an equivalent
@@ -24,6 +24,7 @@ from sa.core.findings import Report  # noqa: E402
 from sa.core.loader import AnalysisError, Repo  # noqa: E402
 
 ROOT = "/repo"
+OPS = 1
 SWAP_CMP = {ast.Lt: ast.LtE, ast.LtE: ast.Lt, ast.Gt: ast.GtE, ast.GtE: ast.Gt, ast.Eq: ast.NotEq, ast.NotEq: ast.Eq}
 SWAP_NAME = {"height": "width", "width": "height", "y": "x", "x": "y"}
 
@@ -73,6 +74,73 @@ def sites(src: str, only_func):
         def get(a, b):
             return src[a:b]
 
+    if OPS == 2:
+        # second generation: argument swaps, range/slice bounds, fold_and <-> fold_or, min <-> max, & <-> |, + <-> - between
+        # non-constants, receiver/argument of .then swapped, continue <-> break, condition replaced by a constant, == -> <= / >=,
+        # one element dropped from a list/tuple display
+        SWAP_CALL = {"fold_or": "fold_and", "fold_and": "fold_or", "min": "max", "max": "min", "any": "all", "all": "any"}
+        for n in ast.walk(tree):
+            if not hasattr(n, "lineno") or not within(n):
+                continue
+            where = f"L{n.lineno}"
+            if isinstance(n, ast.Call):
+                if len(n.args) >= 2 and not any(isinstance(a, ast.Starred) for a in n.args):
+                    for k in range(len(n.args) - 1):
+                        a0, b0 = span(n.args[k])
+                        a1, b1 = span(n.args[k + 1])
+                        t0, t1 = get(a0, b0), get(a1, b1)
+                        if t0 != t1:
+                            yield f"{where} swap args {k},{k + 1}: {ast.unparse(n)[:60]}", sub(a0, b1, t1 + get(b0, a1) + t0)
+                if isinstance(n.func, ast.Name) and n.func.id in SWAP_CALL:
+                    a, b = span(n.func)
+                    yield f"{where} {n.func.id}->{SWAP_CALL[n.func.id]}: {ast.unparse(n)[:50]}", sub(a, b, SWAP_CALL[n.func.id])
+                if isinstance(n.func, ast.Name) and n.func.id == "range" and 1 <= len(n.args) <= 2:
+                    a, b = span(n.args[-1])
+                    yield f"{where} range end -1: {ast.unparse(n)[:50]}", sub(a, b, "(" + get(a, b) + ") - 1")
+                    yield f"{where} range end +1: {ast.unparse(n)[:50]}", sub(a, b, "(" + get(a, b) + ") + 1")
+                    if len(n.args) == 1:
+                        yield f"{where} range start 1: {ast.unparse(n)[:50]}", sub(a, b, "1, " + get(a, b))
+                    else:
+                        a, b = span(n.args[0])
+                        yield f"{where} range start +1: {ast.unparse(n)[:50]}", sub(a, b, "(" + get(a, b) + ") + 1")
+                if isinstance(n.func, ast.Attribute) and n.func.attr == "then" and len(n.args) == 1:
+                    ra, rb = span(n.func.value)
+                    aa, ab = span(n.args[0])
+                    ca, cb = span(n)
+                    yield f"{where} then swapped: {ast.unparse(n)[:60]}", sub(ca, cb, "(" + get(aa, ab) + ").then(" + get(ra, rb) + ")")
+            elif isinstance(n, ast.Slice):
+                for part, nm in ((n.lower, "lower"), (n.upper, "upper")):
+                    if part is not None:
+                        a, b = span(part)
+                        yield f"{where} slice {nm} +1: {get(a, b)[:30]}", sub(a, b, "(" + get(a, b) + ") + 1")
+                        yield f"{where} slice {nm} -1: {get(a, b)[:30]}", sub(a, b, "(" + get(a, b) + ") - 1")
+            elif isinstance(n, ast.BinOp) and isinstance(n.op, (ast.BitAnd, ast.BitOr, ast.Add, ast.Sub)) and not isinstance(n.right, ast.Constant):
+                _, lb = span(n.left)
+                ra, _ = span(n.right)
+                optxt = get(lb, ra)
+                old, new = {ast.BitAnd: ("&", "|"), ast.BitOr: ("|", "&"), ast.Add: ("+", "-"), ast.Sub: ("-", "+")}[type(n.op)]
+                if optxt.count(old) == 1 and "(" not in optxt and ")" not in optxt:
+                    yield f"{where} {old}->{new}: {ast.unparse(n)[:60]}", sub(lb, ra, optxt.replace(old, new))
+            elif isinstance(n, (ast.Continue, ast.Break)):
+                a, b = span(n)
+                yield f"{where} {'continue->break' if isinstance(n, ast.Continue) else 'break->continue'}", sub(a, b, "break" if isinstance(n, ast.Continue) else "continue")
+            elif isinstance(n, (ast.If, ast.IfExp)) and not isinstance(n.test, ast.Constant):
+                a, b = span(n.test)
+                yield f"{where} cond->True: {get(a, b)[:50]}", sub(a, b, "True")
+                yield f"{where} cond->False: {get(a, b)[:50]}", sub(a, b, "False")
+            elif isinstance(n, ast.Compare) and len(n.ops) == 1 and isinstance(n.ops[0], ast.Eq):
+                _, lb = span(n.left)
+                ra, _ = span(n.comparators[0])
+                optxt = get(lb, ra)
+                if optxt.count("==") == 1:
+                    yield f"{where} cmp ==-><=: {ast.unparse(n)[:60]}", sub(lb, ra, optxt.replace("==", "<="))
+                    yield f"{where} cmp ==->>=: {ast.unparse(n)[:60]}", sub(lb, ra, optxt.replace("==", ">="))
+            elif isinstance(n, (ast.List, ast.Tuple)) and len(n.elts) >= 2 and isinstance(n.ctx, ast.Load) and len(n.elts) <= 8:
+                a0, _ = span(n.elts[-2])
+                _, b0 = span(n.elts[-2])
+                a1, b1 = span(n.elts[-1])
+                yield f"{where} drop last element: {ast.unparse(n)[:50]}", sub(b0, b1, "")
+        return
     for n in ast.walk(tree):
         if not hasattr(n, "lineno") or not within(n):
             continue
@@ -166,6 +234,10 @@ def main():
             i += 2
         elif argv[i] == "--limit":
             limit = int(argv[i + 1])
+            i += 2
+        elif argv[i] == "--ops":
+            global OPS
+            OPS = int(argv[i + 1])
             i += 2
         elif argv[i] == "--jobs":
             jobs = int(argv[i + 1])
